@@ -25,6 +25,7 @@ type SpecEnv struct {
 	bound  map[string]Val
 	loop   *loopInfo
 	inOld  bool
+	useWitness bool
 }
 
 func (e *SpecEnv) clone() *SpecEnv {
@@ -57,11 +58,73 @@ func (fv *FuncVC) evalClause(env *SpecEnv, c Clause) string {
 			panic(r)
 		}
 	}()
-	v := fv.evalSpec(env, c.Expr)
+	expr := c.Expr
+	if len(c.Witness) > 0 && env.useWitness {
+		if e2, ok := fv.applyWitness(env, expr, c.Witness); ok {
+			expr = e2
+		}
+	}
+	v := fv.evalSpec(env, expr)
 	if len(v.C) != 1 {
 		engineErr("clause is not boolean")
 	}
 	return v.C[0]
+}
+
+// SBoundVal: a pre-evaluated value spliced into a spec AST (witness instantiation)
+type SBoundVal struct{ V Val }
+
+// applyWitness instantiates the outermost existential(s) of `A ==> exists k :: B` / `exists k :: B`
+// with the witness expressions, if those evaluate at this program point. Proving the instance
+// proves the existential.
+func (fv *FuncVC) applyWitness(env *SpecEnv, e SExpr, w map[string]SExpr) (res SExpr, ok bool) {
+	defer func() {
+		if r := recover(); r != nil {
+			if _, isEE := r.(*EngineError); isEE {
+				res, ok = nil, false
+				return
+			}
+			panic(r)
+		}
+	}()
+	switch x := e.(type) {
+	case *SBin:
+		if x.Op == "==>" {
+			if y, ok := fv.applyWitness(env, x.Y, w); ok {
+				return &SBin{"==>", x.X, y}, true
+			}
+		}
+		return nil, false
+	case *SQuant:
+		if x.Forall {
+			return nil, false
+		}
+		vals := map[string]Val{}
+		for _, bv := range x.Vars {
+			we, has := w[bv.Name]
+			if !has {
+				return nil, false
+			}
+			v := fv.evalSpec(env, we)
+			t, err := fv.v.ResolveType(bv.Type, env.pkg)
+			if err != nil {
+				return nil, false
+			}
+			if len(v.C) != len(fv.m.Flatten(t)) {
+				return nil, false
+			}
+			v.T = t
+			vals[bv.Name] = v
+		}
+		return &SWith{Vals: vals, Body: x.Body}, true
+	}
+	return nil, false
+}
+
+// SWith: evaluate Body with extra name bindings
+type SWith struct {
+	Vals map[string]Val
+	Body SExpr
 }
 
 var untypedInt = types.Typ[types.UntypedInt]
@@ -143,7 +206,19 @@ func (fv *FuncVC) evalSpec(env *SpecEnv, e SExpr) Val {
 		}
 		fv.binderDepth++
 		body := fv.evalSpec(ne, x.Body).One()
+		var pats []string
+		for _, te := range x.Triggers {
+			tv := fv.evalSpec(ne, te)
+			for _, c := range tv.C {
+				if strings.HasPrefix(c, "(") {
+					pats = append(pats, c)
+				}
+			}
+		}
 		fv.binderDepth--
+		if len(pats) > 0 {
+			body = fmt.Sprintf("(! %s :pattern (%s))", body, strings.Join(pats, " "))
+		}
 		_ = guards
 		q := "exists"
 		if x.Forall {
@@ -166,6 +241,16 @@ func (fv *FuncVC) evalSpec(env *SpecEnv, e SExpr) Val {
 		r.T = t
 		r.St = v.St
 		return r
+	case *SWith:
+		ne := env.clone()
+		ne.bound = map[string]Val{}
+		for k, v := range env.bound {
+			ne.bound[k] = v
+		}
+		for k, v := range x.Vals {
+			ne.bound[k] = v
+		}
+		return fv.evalSpec(ne, x.Body)
 	case *SSeqLit:
 		engineErr("sequence literal outside ++")
 	}
@@ -729,11 +814,21 @@ func (fv *FuncVC) evalIndex(env *SpecEnv, x *SIndex) Val {
 	case *types.Map:
 		// Go semantics: zero value when the key is absent (or the map is nil)
 		k := fv.mapKeyTerm(idx)
-		dom := And(Not(Eq(base.One(), "0")), Select(Select(fv.m.heapGet(st, fv.m.MapDomKey(t)), base.One()), k))
+		bterm := base.One()
+		wrap := func(s string) string { return s }
+		if len(bterm) > 60 || len(k) > 60 {
+			// share the (large) map and key terms with an SMT let
+			fv.ctx.nfresh++
+			mv, kv := fmt.Sprintf("m!q%d", fv.ctx.nfresh), fmt.Sprintf("k!q%d", fv.ctx.nfresh)
+			b0, k0 := bterm, k
+			wrap = func(s string) string { return fmt.Sprintf("(let ((%s %s) (%s %s)) %s)", mv, b0, kv, k0, s) }
+			bterm, k = mv, kv
+		}
+		dom := And(Not(Eq(bterm, "0")), Select(Select(fv.m.heapGet(st, fv.m.MapDomKey(t)), bterm), k))
 		zero := fv.m.Zero(t.Elem())
 		var cs []string
 		for j, vk := range fv.m.MapValKeys(t) {
-			cs = append(cs, Ite(dom, Select(Select(fv.m.heapGet(st, vk), base.One()), k), zero.C[j]))
+			cs = append(cs, wrap(Ite(dom, Select(Select(fv.m.heapGet(st, vk), bterm), k), zero.C[j])))
 		}
 		return Val{T: t.Elem(), C: cs, St: base.St}
 	case *SeqType:
@@ -828,8 +923,15 @@ func (fv *FuncVC) evalCall(env *SpecEnv, x *SCall) Val {
 			mv := fv.evalSpec(env, x.Args[1])
 			switch t := mv.T.Underlying().(type) {
 			case *types.Map:
-				d := Select(Select(fv.m.heapGet(fv.stateOf(env, mv), fv.m.MapDomKey(t)), mv.One()), fv.mapKeyTerm(k))
-				return boolVal(And(Not(Eq(mv.One(), "0")), d))
+				bterm, kt := mv.One(), fv.mapKeyTerm(k)
+				if len(bterm) > 60 {
+					fv.ctx.nfresh++
+					mvn := fmt.Sprintf("m!q%d", fv.ctx.nfresh)
+					d := Select(Select(fv.m.heapGet(fv.stateOf(env, mv), fv.m.MapDomKey(t)), mvn), kt)
+					return boolVal(fmt.Sprintf("(let ((%s %s)) %s)", mvn, bterm, And(Not(Eq(mvn, "0")), d)))
+				}
+				d := Select(Select(fv.m.heapGet(fv.stateOf(env, mv), fv.m.MapDomKey(t)), bterm), kt)
+				return boolVal(And(Not(Eq(bterm, "0")), d))
 			case *SetType:
 				return boolVal(Select(mv.C[0], fv.mapKeyTerm(k)))
 			}
@@ -1033,13 +1135,39 @@ func (fv *FuncVC) applyPure(env *SpecEnv, pd *PureDef, argExprs []SExpr) Val {
 		st := v.St
 		v.T = pt
 		v.St = st
+		// name large argument terms before macro expansion duplicates them
+		if pd.Body != nil && fv.binderDepth == 0 {
+			v.C = append([]string(nil), v.C...)
+			cs := fv.m.Flatten(pt)
+			for j := range v.C {
+				if len(v.C[j]) > 120 {
+					if n, ok := fv.appNames[v.C[j]]; ok {
+						v.C[j] = n
+						continue
+					}
+					n := fv.ctx.Fresh("arg."+pd.Name, cs[j].Sort)
+					fv.ctx.Assume(Eq(n, v.C[j]))
+					if fv.appNames == nil {
+						fv.appNames = map[string]string{}
+					}
+					fv.appNames[v.C[j]] = n
+					v.C[j] = n
+				}
+			}
+		}
 		args = append(args, v)
 	}
 	if pd.Body != nil {
 		// macro expansion
-		ne := &SpecEnv{fv: fv, names: map[string]Val{}, cur: env.cur, old: env.old, pkg: pkg, bound: env.bound, inOld: env.inOld}
+		// hygiene: the macro body sees its parameters, not bound variables of the call site with the same names
+		nb := map[string]Val{}
+		for k, v := range env.bound {
+			nb[k] = v
+		}
+		ne := &SpecEnv{fv: fv, names: map[string]Val{}, cur: env.cur, old: env.old, pkg: pkg, bound: nb, inOld: env.inOld}
 		for i, p := range pd.Params {
 			ne.names[p.Name] = args[i]
+			delete(nb, p.Name)
 		}
 		return fv.evalSpec(ne, pd.Body)
 	}
@@ -1171,7 +1299,9 @@ func (fv *FuncVC) checkPost(fr *Frame, b *ssa.BasicBlock, st *State, reach strin
 	}
 	// named results
 	for _, e := range con.Ensures {
+		env.useWitness = true
 		t := fv.evalClause(env, e)
+		env.useWitness = false
 		fv.oblige("post", clauseLabel(e), reach, t, e.Text, pos)
 		// later clauses may rely on earlier ones (each is still an obligation of its own)
 		fv.ctx.Assume(Implies(reach, t))
